@@ -298,12 +298,12 @@ func checkC16(w *World, r *Report) {
 				}
 				if !bad && nHit > 0 && nMiss > 0 {
 					okM = pcCompare(hit, func(a *pcAtom) string {
-						if a.op == token.LSS && a.x != nil && isRangeIndex(a.x) {
+						if pcIsIter(a) {
 							return "iter"
 						}
 						if a.op == token.EQL && a.x != nil {
 							for _, pair := range [][2]ssa.Value{{a.x, a.y}, {a.y, a.x}} {
-								if pair[1] == sVal && loadedFieldName(pair[0]) == "Val" {
+								if outerValue(pair[1]) == sVal && loadedFieldName(pair[0]) == "Val" {
 									return "match"
 								}
 							}
@@ -312,12 +312,10 @@ func checkC16(w *World, r *Report) {
 					}, func(env map[string]bool) bool { return env["iter"] && env["match"] }) == ""
 				}
 				// the list scanned is the type's own
-				scansOwn := false
-				for _, b := range f.Blocks {
-					for _, in := range b.Instrs {
-						if ia, ok := in.(*ssa.IndexAddr); ok && isRangeIndex(ia.Index) && loadedFieldName(ia.X) == c.field {
-							scansOwn = true
-						}
+				scansOwn := nHit > 0
+				for _, ex := range searchExits(sym, f) {
+					if ex.inLoop && (ex.list == nil || loadedFieldName(ex.list) != c.field) {
+						scansOwn = false
 					}
 				}
 				okM = okM && scansOwn
